@@ -11,6 +11,7 @@ import (
 	"crypto/sha256"
 	"fmt"
 	"io"
+	"math/big"
 	"os"
 	"path/filepath"
 	"sort"
@@ -75,10 +76,7 @@ func verifAttrStr(a metadata.Attr) string {
 	if nlink == 0 {
 		nlink = 1
 	}
-	mt := "z"
-	if !a.ModTime.IsZero() {
-		mt = fmt.Sprintf("%d", a.ModTime.UnixNano())
-	}
+	mt := verifInstant(a.ModTime)
 	xs := "-"
 	if len(a.Xattrs) > 0 {
 		var ks []string
@@ -94,6 +92,19 @@ func verifAttrStr(a metadata.Attr) string {
 	}
 	return fmt.Sprintf("mode=%o size=%d uid=%d gid=%d dev=%d:%d nlink=%d link=%s mtime=%s xattrs=%s",
 		verifSysMode(a.Mode), size, a.UID, a.GID, a.DevMajor, a.DevMinor, nlink, verifHex(a.LinkName), mt, xs)
+}
+
+// verifInstant renders a time BY INSTANT as an unbounded decimal number of nanoseconds since the
+// Unix epoch (seconds*1e9 + nanoseconds, computed with math/big): Time.UnixNano() is only defined
+// for 1677-09-21..2262-04-11 and would wrap identically on both sides of a comparison. The zone is
+// not part of the instant; "z" is the zero time (what `IsZero` reports; FUSE gets Unix() of it).
+func verifInstant(t time.Time) string {
+	if t.IsZero() {
+		return "z"
+	}
+	n := new(big.Int).Mul(big.NewInt(t.Unix()), big.NewInt(1000000000))
+	n.Add(n, big.NewInt(int64(t.Nanosecond())))
+	return n.String()
 }
 
 func verifTypeChar(m os.FileMode) string {
